@@ -1216,7 +1216,7 @@ func verifyFuncVariant(prog *Prog, specs *Specs, fn *ssa.Function, variant strin
 		}
 		c.mu.Unlock()
 	}
-	timeout := 20
+	timeout := 30
 	if tier == "thorough" {
 		timeout = 120
 	}
